@@ -8,7 +8,7 @@ import (
 
 func init() {
 	register("C20", propMeta{
-		Explanation: "E-LOCK. A flow-sensitive must-lockset is computed over the SSA of every repository function (entry lockset = intersection over call sites, container/heap and sync.Once callbacks modelled as calls, goroutine bodies/callbacks/interface-exposed methods start empty). O-1: every read and write of every field in the explicit guarded-by table (built by reading the anchors; ~60 rows: matching state, metrics, client map, session maps, traffic counters) happens under its protection - the named mutex (write mode for writes), sync/atomic only, or immutable after publication (writes only to a not-yet-published fresh object or in a listed start-up function); for 'deep' rows the map/slice/list behind the field as well. O-2: every Lock/RLock is released on all paths, no Unlock of a lock not held, no self-deadlock, and the acquired-while-holding graph is acyclic. O-3: a field accessed through sync/atomic is never accessed plainly, including by copying the struct through a value receiver. An access outside its protection is a pair of conflicting accesses with no ordering synchronisation for some schedule, i.e. a data race; each rule is therefore a necessary condition of race freedom for the listed state.",
+		Explanation: "E-LOCK. A flow-sensitive must-lockset is computed over the SSA of every repository function (entry lockset = intersection over call sites, container/heap and sync.Once callbacks modelled as calls, goroutine bodies/callbacks/interface-exposed methods start empty). O-1: every read and write of every field in the explicit guarded-by table (built by reading the anchors; ~60 rows: matching state, metrics, client map, session maps, traffic counters) happens under its protection - the named mutex (write mode for writes), sync/atomic only, or immutable after publication (writes only to a not-yet-published fresh object or in a listed start-up function); for 'deep' rows the map/slice/list behind the field as well. O-2: every Lock/RLock is released on all paths, no Unlock of a lock not held, no self-deadlock, and the acquired-while-holding graph is acyclic. O-3: a field accessed through sync/atomic is never accessed plainly, including by copying the struct through a value receiver. O-4: a byte slice sent through a turbotunnel packet queue (and so handed to another goroutine) is a private copy made by the sender, never the caller's buffer, which the caller goes on writing. An access outside its protection is a pair of conflicting accesses with no ordering synchronisation for some schedule, i.e. a data race; each rule is therefore a necessary condition of race freedom for the listed state.",
 		NotDecided:  "races on state outside the table (third-party objects, local variables captured by several closures), happens-before through channels other than the immutable-after-publication class, instance confusion (locks are named by type and field, not by object).",
 		Assumptions: []string{"lock identity is (type, field): two instances of one struct are not distinguished", "start-up writes listed in the table happen before any concurrent reader exists (single-goroutine initialisation in main)", "dynamic calls neither acquire nor release repository locks"},
 	}, runC20)
@@ -26,6 +26,16 @@ func runC20(c *Ctx) {
 	c.checkLockPairing("O-2 lock pairing", scope)
 	c.checkLockOrder("O-2b lock order")
 	c.checkAtomicDiscipline("O-3 atomic discipline", scope)
+	// O-4: byte slices handed to another goroutine through a packet queue are private copies
+	var senders []*ssa.Function
+	for _, n := range []string{"(*QueuePacketConn).QueueIncoming", "(*QueuePacketConn).WriteTo", "(*RedialPacketConn).WriteTo"} {
+		if fn := p.Fn("common/turbotunnel", n); fn != nil {
+			senders = append(senders, fn)
+		} else {
+			c.undecided("O-4 buffers crossing goroutines are private copies", "common/turbotunnel."+n, "-", "anchor does not resolve")
+		}
+	}
+	c.checkCopyOnEnqueueFor("O-4 buffers crossing goroutines are private copies", senders)
 	if c.Thorough {
 		c.inferGuardCandidates(scope)
 	}
